@@ -690,6 +690,46 @@ func families(w *world) []*family {
 				emit(fmt.Sprintf("depth=%d/len=%d/in-contentinfo", depth, len(b)+30), dSeq(dOID(asn1.ObjectIdentifier{1, 2, 840, 113549, 1, 7, 2}), tlv([]byte{0xa0}, b, lenMinimal)))
 			}
 		}, calls: nestCalls})
+	// ---- nested elements with INCONSISTENT lengths ---------------------------------------------------
+	// A recursive-descent reader that lets an element reach beyond its parent parses the bytes behind the parent
+	// again for every level: time exponential in the depth on a few hundred bytes. Small depths return at once
+	// either way; the large ones (never more than a few KiB) return at once from a linear reader and not within the
+	// bounded-progress limit from an exponential one (decided by the watchdog, confirmed alone, never by a timer here).
+	add(&family{name: "nested-inconsistent-lengths", kdf: true,
+		params: names("child-longer-than-parent", "child-longer/explicit-tags", "child-longer/mixed-tags", "overlap-by-one", "parent-shorter-than-header", "indefinite-inside-short-definite", "sibling-runs"),
+		gen: func(c *mon.Case, p string, emit func(string, []byte)) {
+			for _, n := range []int{2, 4, 8, 12, 16, 24, 32, 48, 64, 96, 128, 200} {
+				var b []byte
+				switch p {
+				case "child-longer-than-parent": // 30 06 30 02 30 06 30 02 ...
+					b = append(bytes.Repeat([]byte{0x30, 0x06, 0x30, 0x02}, n), bytes.Repeat([]byte{0x30, 0x00}, 6)...)
+				case "child-longer/explicit-tags":
+					b = append(bytes.Repeat([]byte{0xa0, 0x06, 0xa1, 0x02}, n), bytes.Repeat([]byte{0x05, 0x00}, 6)...)
+				case "child-longer/mixed-tags":
+					for i := 0; i < n; i++ {
+						b = append(b, []byte{0x30, 0x31, 0xa0, 0x24}[i%4], byte(4+2*(i%3)), []byte{0x30, 0x24, 0x31}[i%3], 0x02)
+					}
+					b = append(b, bytes.Repeat([]byte{0x30, 0x00}, 8)...)
+				case "overlap-by-one": // every child claims one octet more than its parent has left
+					for i := 0; i < n; i++ {
+						b = append(b, 0x30, byte(2+i%3), 0x30, byte(3+i%3))
+					}
+					b = append(b, bytes.Repeat([]byte{0x04, 0x00}, 6)...)
+				case "parent-shorter-than-header": // 30 01 30 01 ... a parent too short for its child's header
+					b = append(bytes.Repeat([]byte{0x30, 0x01}, 2*n), 0x05, 0x00)
+				case "indefinite-inside-short-definite":
+					b = append(bytes.Repeat([]byte{0x30, 0x04, 0x30, 0x80}, n), bytes.Repeat([]byte{0x00, 0x00}, n+2)...)
+				case "sibling-runs": // many siblings each of which reaches over the following ones
+					for i := 0; i < n; i++ {
+						b = append(b, 0x30, byte(min(4*(n-i), 120)), 0x30, 0x02)
+					}
+					b = append(b, bytes.Repeat([]byte{0x30, 0x00}, 4)...)
+				}
+				emit(fmt.Sprintf("n=%d/len=%d", n, len(b)), b)
+				emit(fmt.Sprintf("n=%d/len=%d/in-contentinfo", n, len(b)+30), dSeq(dOID(asn1.ObjectIdentifier{1, 2, 840, 113549, 1, 7, 2}), tlv([]byte{0xa0}, b, lenMinimal)))
+				emit(fmt.Sprintf("n=%d/len=%d/in-sequence", n, len(b)+4), tlv([]byte{0x30}, b, lenMinimal))
+			}
+		}, calls: nestCalls})
 	_ = pkix.Name{}
 	return fs
 }
